@@ -60,6 +60,9 @@ def rows(quick, fault, drop):
               # flush in the middle of a unit: a short unit, then full ones (unit boundaries no longer multiples)
               ("w-flush-first", "lzma2", 2, ["f", "F", "X"], {}, "tour"),
               ("w-flush-only", "lzip", 2, ["f", "X"], {}, "tour"),
+              # one write() call that starts in the middle of a unit and spans several unit boundaries
+              ("w-merged-lzip", "lzip", 2, ["P", "P", "F", "F", "F", "X"], dict(extra=dict(merge=True)), "rand"),
+              ("w-merged-lzma2", "lzma2", 2, ["P", "P", "F", "F", "F", "X"], dict(extra=dict(merge=True)), "rand"),
               ("w-midflush", "lzma2", 2, ["F", "P", "f", "F", "F", "X"], dict(extra=dict(weight=4)), "rand"),
               ("w-midflush-lzip-3w", "lzip", 3, ["F", "P", "f", "F", "X"], {}, "rand")]
         if not quick:
@@ -77,6 +80,18 @@ def cfgs(quick, fault=False, drop=False):
         weight = (extra or {}).pop("weight", 1) if extra else 1
         out.append(dict(name=name, fam=kind + "_writer", consts=consts(workers, calls, **kw), mode=mode,
                         calls=calls, extra=extra or None, weight=weight, **WRITER))
+    return out
+
+
+def merge_calls(cs):
+    """Merges runs of consecutive write calls (from the second call on) into one call: a write() call is a run of
+    F / P iterations for the model, and call boundaries inside it are not runtime operations."""
+    out = []
+    for c in cs:
+        if c["op"] == "write" and len(out) >= 2 and out[-1]["op"] == "write":
+            out[-1] = {"op": "write", "n": out[-1]["n"] + c["n"]}
+        else:
+            out.append(dict(c))
     return out
 
 
@@ -111,4 +126,6 @@ def make_scn(c, sid, policy):
          "data_class": "text", "seed": 7}
     if c.get("extra"):
         s.update(c["extra"])
+    if s.pop("merge", False):
+        s["calls"] = merge_calls(s["calls"])
     return s
